@@ -73,7 +73,7 @@ CHECKS = {
     "C09": {
         "test": "TestC09", "level": "exploration", "engine": "fuzz",
         "technique": "property-based robustness testing: structured hostile transactions/queries and raw byte mutations (rapid), plus go native coverage-guided fuzzing in the thorough tier",
-        "level_text": "Exploration: inside generated block histories more than half of the delivered txs are hostile envelopes (every field hostile: address lengths 0..40, 256-bit amounts, gas 0/2^63/2^64-1, types -3..12, payloads of the right or wrong type with hostile contents, option documents that are not JSON/nested/signed numbers, 5000-byte names), most of them correctly signed by a funded account with the right nonce and price so they reach the controllers, some byte-mutated; hostile CheckTx and Query calls (all paths incl. vm_call, data lengths 0..80, heights -2^63..2^63-1) are served inside and between blocks. Oracle: every call returns, no panic (recovered and reported), afterwards a canned valid transfer still succeeds and commits.",
+        "level_text": "Exploration: inside generated block histories more than half of the delivered txs are hostile envelopes (every field hostile: address lengths 0..40, 256-bit amounts, gas 0/2^63/2^64-1, types -3..12, payloads of the right or wrong type with hostile contents, option documents that are not JSON/nested/signed numbers, 5000-byte names), most of them correctly signed by a funded account with the right nonce and price so they reach the controllers, some byte-mutated; hostile CheckTx and Query calls (all paths incl. vm_call, data lengths 0..80, heights -2^63..2^63-1) and CheckTx of ordinary valid transactions are served before BeginBlock, inside and between blocks; the node is stopped and reopened after 12% of the blocks, so requests also meet a freshly started node that has not executed a block yet (labels restarts, checktx_ok). Oracle: every call returns, no panic (recovered and reported), afterwards a canned valid transfer still succeeds and commits.",
         "level_note": "Protocol violations by the consensus engine itself (DeliverTx outside a block, wrong heights) are not external input and are not generated. vm_call needs rpc/core's environment; the harness installs a fake BlockStore knowing the headers it fed.",
         "quick": {"checks": 400, "timeout": 600},
         "thorough": {"checks": 3000, "shards": 15, "timeout": 3000},
